@@ -243,7 +243,29 @@ def rows(ctx: Ctx) -> Any:
                       "expected_set": True, "packaging": ("separate", "one-chunk")[i % 2], "password": "pw", "expected_via": via, "expected": exp}
 
 
+def rejection_at_the_deadline(ctx: Ctx) -> None:
+    """The rejecting answer (another name in the Noise or API hello, an unsupported major version, an invalid-password verdict) and the phase's own
+    30 s deadline fall into one loop iteration (answer exactly at the deadline / process stopped across it).  The answer is handled first and
+    ends the connection with its specific error; the call raises that error, not a timeout that became due in the same iteration."""
+    from vf.sim import sweep
+
+    res = ctx.res
+    for idx, (label, spec) in enumerate(sweep.deadline_specs(("noise", "plain"), ("other-name", "other-version", "invalid-password"))):
+        if not ctx.mine(700 + idx):
+            continue
+        obs = sweep.run_spec(spec)
+        res.evaluations += 1
+        res.count("rejection-at-the-deadline")
+        res.sig("deadline", label)
+        if obs.harness_errors:
+            res.inconclusive.append("C06 deadline scenario: " + obs.harness_errors[0][-300:])
+            continue
+        for _k, what in sweep.masked_first_cause(obs):
+            res.violation("C06/wrong-error/at-the-deadline", f"{label}: {what}", {"spec": spec, "deadline": label}, trace=obs.trace[-40:])
+
+
 def shard(ctx: Ctx) -> None:
+    rejection_at_the_deadline(ctx)
     res = ctx.res
     for i, row in rows(ctx):
         if not ctx.mine(i):
